@@ -198,6 +198,11 @@ var c18Pear = []string{"优势", "劣势"}
 type c18Gen struct {
 	r    *rng
 	mode int
+	// bitOK: the value being generated may use bit-wise operators / the sides-less `Nd` inside its parentheses. Only for
+	// assignment values whose name does not end in a digit: combined with the recorded text-splitting findings (a name
+	// ending in digits is re-split, the rest of the edit then continues the value under the st restrictions) such a value
+	// additionally runs into the recorded left-over-code finding, which is C03's subject, not this check's
+	bitOK bool
 }
 
 func isASCIILetterStart(s string) bool {
@@ -302,12 +307,15 @@ func (g *c18Gen) value() (string, string) {
 	default: // parenthesised: the full expression syntax is back inside the parentheses (bit-wise operators, the sides-less `Nd`)
 		b, _ := g.atom()
 		op := pick(r, []string{"+", "-", "*", "+", "-", "*", "&", "|"})
+		if !g.bitOK && (op == "&" || op == "|") {
+			op = "+"
+		}
 		if op == "&" || op == "|" { // integer operands only (anything else is a type error, not a value)
 			a, b = fmt.Sprint(r.intn(64)), fmt.Sprint(r.intn(64))
 			if r.chance(1, 4) {
 				b = g.dice()
 			}
-		} else if g.mode != 0 && r.chance(1, 8) {
+		} else if g.bitOK && g.mode != 0 && r.chance(1, 8) {
 			b = fmt.Sprintf("%dd", 1+r.intn(4))
 		}
 		in := a + op + b
@@ -371,7 +379,9 @@ func (g *c18Gen) assignEdit() stEdit {
 		e.Kind = "computed"
 	}
 	e.Name, e.Quoted, e.NameK = g.name(e.Kind == "set" || e.Kind == "computed")
+	g.bitOK = !endsInDigit(e.Name)
 	e.VText, e.VKind = g.value()
+	g.bitOK = false
 	e.Delim = pick(r, []string{":", "="})
 	n := quote(e.Name, e.Quoted)
 	switch e.Kind {
@@ -653,7 +663,7 @@ func init() {
 			}
 			c := g.gen(fam)
 			emit(c)
-			if len(srcs) < *n/4 {
+			if len(srcs) < *n/4 && !strings.ContainsAny(c.Run.Src, "&|") {
 				srcs = append(srcs, c.Run.Src)
 			}
 		}
